@@ -280,6 +280,9 @@ func (e *Env) eval(x Expr) *Val {
 	case EIdx:
 		v := e.eval(n.X)
 		i := e.eval(n.I)
+		if v.T == nil { // ghost array
+			return &Val{T: v.GhostElem, A: []string{sel(v.one(), i.A[0])}}
+		}
 		switch u := v.T.Underlying().(type) {
 		case *types.Slice:
 			addr := e.tr.at(v.A[0], v.A[1], i.one())
@@ -336,20 +339,43 @@ func (e *Env) eval(x Expr) *Val {
 
 func (e *Env) ident(name string) *Val {
 	if v, ok := e.vars[name]; ok {
+		if v.AutoDeref && v.Loc == nil {
+			if pt, ok := v.T.Underlying().(*types.Pointer); ok {
+				return e.loadCell(e.st, pt.Elem(), v.one())
+			}
+		}
 		return v
 	}
 	if strings.HasPrefix(name, "$") {
 		if g, ok := e.tr.W.C.Ghosts[name]; ok {
 			if g.Array {
-				return &Val{T: nil, A: []string{e.tr.cur(e.st, Comp{name, "(Array Int " + g.Sort + ")"})}}
+				et := types.Type(tInt)
+				if g.Sort == "Bool" {
+					et = tBool
+				}
+				return &Val{T: nil, GhostElem: et, A: []string{e.tr.cur(e.st, Comp{name, "(Array Int " + g.Sort + ")", false})}}
 			}
 			t := tInt
 			if g.Sort == "Bool" {
 				t = tBool
 			}
-			return &Val{T: t, A: []string{e.tr.cur(e.st, Comp{name, g.Sort})}}
+			return &Val{T: t, A: []string{e.tr.cur(e.st, Comp{name, g.Sort, false})}}
 		}
 		switch name {
+		case "$stopped":
+			return &Val{T: nil, GhostElem: tBool, A: []string{e.tr.cur(e.st, compStopped)}}
+		case "$armedDelay":
+			return &Val{T: nil, GhostElem: tInt, A: []string{e.tr.cur(e.st, compArmedDelay)}}
+		case "$armedFn":
+			return &Val{T: nil, GhostElem: tInt, A: []string{e.tr.cur(e.st, compArmedFn)}}
+		case "$logsRemoved":
+			return &Val{T: nil, GhostElem: tBool, A: []string{e.tr.cur(e.st, compLogsRemoved)}}
+		case "$pub":
+			return &Val{T: nil, GhostElem: tBool, A: []string{e.tr.cur(e.st, compPub)}}
+		case "$seen":
+			e.fail("$seen is only available in invariants of map-range loops")
+		case "$uuidFailed":
+			return boolVal(e.tr.cur(e.st, compUUIDFailed))
 		case "$held":
 			return intVal(e.tr.cur(e.st, compHeld))
 		case "$alloc":
@@ -569,7 +595,7 @@ func (e *Env) call(n ECall) *Val {
 		return boolVal(e.tr.unchangedHeap(e.st, e.old, nil, e.allocOld))
 	case "cnt":
 		return e.cnt(n)
-	case "all", "distinctElems":
+	case "all", "allIdx", "distinctElems":
 		return e.allElems(n)
 	}
 	// pure spec function
@@ -630,13 +656,13 @@ func (tr *FnCtx) unchangedHeap(st, old *State, except map[string]bool, allocOld 
 	}
 	var parts []string
 	for _, k := range sortedKeysS(tr.comps) {
-		if strings.HasPrefix(k, "L.") || strings.HasPrefix(k, "$seen") || k == "$alloc" || k == "$pub" || k == "$clock" {
+		if strings.HasPrefix(k, "L.") || strings.HasPrefix(k, "$seen") || k == "$alloc" || k == "$pub" || k == "$clock" || k == "$uuidFailed" {
 			continue
 		}
 		if except != nil && except[k] {
 			continue
 		}
-		c := Comp{k, tr.comps[k]}
+		c := Comp{k, tr.comps[k], false}
 		parts = append(parts, tr.sameOn(tr.cur(st, c), tr.cur(old, c), c.Sort, allocOld, nil))
 	}
 	return and(parts...)
@@ -655,9 +681,9 @@ func (tr *FnCtx) resolveComps(pat string, pkg *types.Package) []Comp {
 	if strings.HasPrefix(pat, "$") {
 		if g, ok := tr.W.C.Ghosts[pat]; ok {
 			if g.Array {
-				return []Comp{{pat, "(Array Int " + g.Sort + ")"}}
+				return []Comp{{pat, "(Array Int " + g.Sort + ")", false}}
 			}
-			return []Comp{{pat, g.Sort}}
+			return []Comp{{pat, g.Sort, false}}
 		}
 		switch pat {
 		case "$held":
@@ -668,6 +694,16 @@ func (tr *FnCtx) resolveComps(pat string, pkg *types.Package) []Comp {
 			return []Comp{compAlloc}
 		case "$pub":
 			return []Comp{compPub}
+		case "$stopped":
+			return []Comp{compStopped}
+		case "$armedDelay":
+			return []Comp{compArmedDelay}
+		case "$armedFn":
+			return []Comp{compArmedFn}
+		case "$logsRemoved":
+			return []Comp{compLogsRemoved}
+		case "$uuidFailed":
+			return []Comp{compUUIDFailed}
 		}
 		return nil
 	}
@@ -707,7 +743,7 @@ func (tr *FnCtx) resolveComps(pat string, pkg *types.Package) []Comp {
 		var out []Comp
 		for _, a := range tr.W.flatten(t) {
 			if a.Path == path || strings.HasPrefix(a.Path, path+".") || strings.HasPrefix(a.Path, path+"#") {
-				out = append(out, Comp{"F." + tr.W.typeKey(t) + "." + a.Path, "(Array Int " + a.Sort + ")"})
+				out = append(out, Comp{"F." + tr.W.typeKey(t) + "." + a.Path, "(Array Int " + a.Sort + ")", false})
 			}
 		}
 		if len(out) > 0 {
@@ -751,7 +787,7 @@ func (e *Env) cnt(n ECall) *Val {
 		var actualComps []Comp
 		for _, name := range fst.FormalOrder {
 			formals = append(formals, "("+fst.Formal[name]+" "+e.tr.comps[name]+")")
-			actualComps = append(actualComps, Comp{name, e.tr.comps[name]})
+			actualComps = append(actualComps, Comp{name, e.tr.comps[name], false})
 		}
 		var fargs []string
 		for _, name := range fst.FormalOrder {
@@ -827,8 +863,13 @@ func (e *Env) allElems(n ECall) *Val {
 	}
 	va, pa := mk(a)
 	args := []Expr{EIdent{"$allelem"}}
+	vars := map[string]*Val{"$allelem": va}
+	if n.Fn == "allIdx" {
+		args = append(args, EIdent{"$allidx"})
+		vars["$allidx"] = intVal("(- (elemI " + a + ") " + s.A[1] + ")")
+	}
 	args = append(args, n.Args[2:]...)
-	ne := e.with(map[string]*Val{"$allelem": va})
+	ne := e.with(vars)
 	body := ne.call(ECall{Fn: id.Name, Args: args})
 	return boolVal("(forall ((" + a + " Int)) (! " + implies(inRange(a), body.one()) + " :pattern (" + pa + ")))")
 }
